@@ -40,7 +40,10 @@ def run(tier, seed):
     gens = [x for x in F.nodes(kind='call') if x.stmt[1] in ('genbbsub', 'dbd_gA::shoot') or x.stmt[1].startswith('indirect')
             or x.stmt[1].endswith('operator()')]
     engines = [g for g in gens if g.stmt[1] in ('genbbsub', 'dbd_gA::shoot')]
-    ok = bool(rs) and len(engines) >= 1 and len(gens) > len(engines) and all(F.dominates(rs[0], g) for g in gens)
+    # calls of file-local helpers of shoot() (e.g. the operations loop moved into `apply_operations`) must come after the reset too
+    locals_ = {f['name'] for f in prog.functions.values() if f.get('file') == sh.get('file') and not f.get('method')}
+    gens += [x for x in F.nodes(kind='call') if x.stmt[1].split('::')[-1] in locals_ and x not in gens]
+    ok = bool(rs) and len(engines) >= 1 and all(F.dominates(rs[0], g) for g in gens)
     rep.add('SHOOT.reset-first', 'shoot', where(sh, rs[0].line if rs else sh['l']),
             'event_.reset() precedes the %d generator/operation calls of shoot()' % len(gens), ok)
     ev = typestate.reset_complete(rep, prog, 'bxdecay0::event', 'bxdecay0::event::reset', 'RESET.complete')
